@@ -59,6 +59,7 @@ type World struct {
 	cancelNext bool
 	abortedReq bool
 	addressed  map[string]bool
+	restartAt  int
 	lastGCBusy bool
 	sessions map[int]*MSess
 	props  []string // properties this run's generic oracles speak for in addition to their own
